@@ -400,6 +400,49 @@ func runC07(env *lib.Env, rep *lib.Report) {
 		}
 		rep.Bounds["large BIGINT family"] = fmt.Sprintf("%d one- and two-row tables over values around 2^52..2^53 (both signs), AVG with and without GROUP BY", len(sets))
 	}
+	// AVG over negative and mixed-sign values (rounding to the nearest integer on both sides of zero): every
+	// multiset of 1..3 rows over w in {-7, -3, -2, -1, 2, 5}, in every row order, with and without GROUP BY
+	if env.Shard == 4%env.NShards {
+		negVals := []int64{-7, -3, -2, -1, 2, 5}
+		var sets [][][]any
+		var recN func(start int, cur [][]any)
+		recN = func(start int, cur [][]any) {
+			if len(cur) > 0 {
+				sets = append(sets, append([][]any{}, cur...))
+			}
+			if len(cur) == 3 {
+				return
+			}
+			for i := start; i < len(negVals); i++ {
+				recN(i, append(cur, []any{int64(1 + len(cur)%2), negVals[i]}))
+			}
+		}
+		recN(0, nil)
+		nq := []*qQuery{
+			{items: []qItem{{kind: "avg", col: qRef{"", "w"}}, {kind: "count*"}}, from: []qJoin{{table: "tn"}}, limit: -1, offset: -1},
+			{items: []qItem{{kind: "col", col: qRef{"", "g"}}, {kind: "avg", col: qRef{"", "w"}}}, from: []qJoin{{table: "tn"}}, groupBy: []qRef{{"", "g"}}, limit: -1, offset: -1},
+		}
+		for _, ms := range sets {
+			permutations(ms, func(rows [][]any) {
+				worlds++
+				x := lib.RunOnce(func(c *lib.Ctx) {
+					qw := newQWorld(c, []*qTable{{name: "tn", cols: []mCol{{"g", "int"}, {"w", "int"}}, rows: rows}})
+					defer qw.w.destroy()
+					for _, q := range nq {
+						known := ""
+						if d11 {
+							known = "D11-avg-running-rounded"
+						}
+						r.check(qw, q, "avg/negative-values", known)
+					}
+				}, nil)
+				if x.Fail != nil {
+					rep.AddFailure(x.Fail)
+				}
+			})
+		}
+		rep.Bounds["negative AVG family"] = fmt.Sprintf("%d multisets of 1..3 rows over w in %v, every row order, AVG with and without GROUP BY", len(sets), negVals)
+	}
 	// many grouping columns: a table of six columns, every pair and triple of rows that agree everywhere except in one
 	// (or two) columns, grouped by 3..6 columns in two orders (rows fall into one group only if all grouping values
 	// are equal - also the fifth and the sixth)
